@@ -51,6 +51,24 @@ def strip_err(d):
     return d
 
 
+def matches(pattern, case):
+    """a known-finding pattern covers a failing case when every key it gives (except error / seed) has the same
+    value in the case: a full case dict matches only itself, a partial one a whole class (same call site / input family)"""
+    if not isinstance(pattern, dict) or not isinstance(case, dict):
+        return pattern == case
+    for k, v in pattern.items():
+        if k in ('error', 'seed'):
+            continue
+        if k not in case:
+            return False
+        if isinstance(v, dict) and isinstance(case[k], dict):
+            if not matches(v, case[k]):
+                return False
+        elif case[k] != v:
+            return False
+    return True
+
+
 def run_native(pid, payload, timeout=600):
     """replay / bounded search on the REAL code (same working tree) under the repo's interpreter"""
     mod = os.path.join(ROOT, 'replay', '%s.py' % pid)
@@ -96,7 +114,7 @@ def main(argv=None):
         r = run_native(pid, {'mode': 'replay', 'case': payload})
         print(json.dumps(r, indent=1))
         return 1 if r.get('failing') else 0
-    timeout_ms = 10000 if tier == 'quick' else 60000
+    timeout_ms = 20000 if tier == 'quick' else 60000
     findings = [f for f in json.load(open(os.path.join(ROOT, 'known_findings.json')))['findings'] if f['property'] == pid and f.get('status') == 'open']
     excl = {}
     for f in findings:
@@ -177,17 +195,54 @@ def main(argv=None):
     for b in prop.get('bounded', []):
         if tier == 'quick' and b.get('tier') == 'thorough':
             continue
-        known_inputs = [f['input'] for f in findings if f.get('input') is not None and f.get('bounded', b['name']) == b['name']]
-        nat = run_native(pid, {'mode': 'bounded', 'name': b['name'], 'seed': seed, 'tier': tier, 'known': known_inputs}, timeout=b.get('timeout', 900))
+        patterns = [f for f in findings if f.get('input') is not None]
+        req = {'mode': 'bounded', 'name': b['name'], 'seed': seed, 'tier': tier, 'known': [f['input'] for f in patterns], 'all': True, 'collect': True}
+        nat = run_native(pid, req, timeout=b.get('timeout', 1500))
+        allf = nat.get('all_failures')
+        if allf is None:
+            allf = nat.get('all_failing')
+        hit = {}
+        if allf is not None:
+            # the oracle listed every failing case: those covered by a known-finding pattern are set aside
+            rest = []
+            for c in allf:
+                m = [f for f in patterns if matches(f['input'], c)]
+                if m:
+                    hit[m[0]['id']] = m[0]
+                else:
+                    rest.append(c)
+            nat = dict(nat)
+            nat['failing'] = rest[0] if rest else None
+            nat['n_failing_unlisted'] = len(rest)
+        else:
+            # the oracle stops at its first failure: feed known cases back until something unlisted (or nothing) fails
+            known_exact = []
+            for _ in range(60):
+                fc = nat.get('failing')
+                if not fc:
+                    break
+                m = [f for f in patterns if matches(f['input'], fc)]
+                if not m:
+                    break
+                hit[m[0]['id']] = m[0]
+                known_exact.append(fc)
+                req2 = dict(req)
+                req2['known'] = [f['input'] for f in patterns] + known_exact
+                nat = run_native(pid, req2, timeout=b.get('timeout', 1500))
+            for kh in (nat.get('known_hit') or []):
+                for f in patterns:
+                    if matches(f['input'], kh):
+                        hit[f['id']] = f
         for kh in (nat.get('known_hit') or []):
-            for f in findings:
-                if f.get('input') is not None and strip_err(f['input']) == strip_err(kh):
-                    known_lines.append('KNOWN-FINDING: property=%s %s' % (pid, f['what']))
+            for f in patterns:
+                if matches(f['input'], kh):
+                    hit[f['id']] = f
+        for f in hit.values():
+            known_lines.append('KNOWN-FINDING: property=%s %s' % (pid, f['what']))
         rec = {'function': b['function'], 'engine': b['engine'], 'bound': b['bound'], 'result': 'pass' if nat.get('ran') and not nat.get('failing') and not nat.get('error') else ('fail' if nat.get('failing') else 'error'),
                'cases': nat.get('cases')}
         bounded.append(rec)
         if nat.get('failing'):
-            kf = [f for f in findings if f.get('bounded') == b['name'] and f.get('input') == nat.get('failing')]
             violations.append((b['function'], {'name': 'bounded:%s' % b['name'], 'status': 'failed', 'kind': 'bounded', 'native': nat}))
         elif nat.get('error') or not nat.get('ran'):
             undecided.append((b['function'], 'bounded:%s' % b['name'], str(nat.get('error') or nat.get('reason'))[:300]))
@@ -219,7 +274,7 @@ def main(argv=None):
         json.dump({'property': pid, 'function': q, 'obligation': o['name'], 'kind': o.get('kind'), 'path': o.get('path'),
                    'solver': {'status': o['status'], 'scope': o.get('model_scope'), 'model': o.get('model')},
                    'native_replay': nat, 'failing_input': failing}, open(os.path.join(ROOT, rp), 'w'), indent=1, default=str)
-        kf = [f for f in findings if f.get('input') is not None and failing is not None and strip_err(f.get('input')) == strip_err(failing)]
+        kf = [f for f in findings if f.get('input') is not None and failing is not None and matches(f.get('input'), failing)]
         if kf:
             known_lines.append('KNOWN-FINDING: property=%s %s' % (pid, kf[0]['what']))
             continue
@@ -234,7 +289,7 @@ def main(argv=None):
         exit_code = 2
         for q, name, why in undecided[:20]:
             print('UNDECIDED property=%s function=%s obligation=%s reason=%s' % (pid, q, name, str(why).splitlines()[-1][:300] if why else ''))
-    if exit_code == 0 and n_ob == 0:
+    if exit_code == 0 and n_ob == 0 and not (prop.get('level') == 'other' and bounded and not prop['functions']):
         print('UNDECIDED property=%s no obligations generated' % pid)
         exit_code = 2
 
@@ -258,7 +313,7 @@ def main(argv=None):
             'undecided': [list(map(str, u)) for u in undecided[:50]],
             'explanation': prop.get('explanation', ''),
             'rule': 'one obligation = one named proof goal (postcondition conjunct, invariant entry/preservation, call-site precondition, safety, frame, termination) over all paths of one function; discharged = z3 unsat on every path instance',
-            'evaluations': n_ob, 'distinct_nontrivial': n_dis,
+            'evaluations': n_ob + sum(int(b.get('cases') or 0) for b in bounded), 'distinct_nontrivial': n_dis + sum(int(b.get('cases') or 0) for b in bounded),
         },
         'assumptions': prop.get('trusted_base', []),
         'wall_s': round(time.time() - t0, 2),
